@@ -9,6 +9,7 @@ import ALV.Lemmas.C09Inverse
 import ALV.Lemmas.C09Stft
 import ALV.Lemmas.C09StftRun
 import ALV.Lemmas.C09Err
+import ALV.Lemmas.C09Wnd
 import Mathlib.Algebra.Order.Field.Rat
 import ALV.Common.Audit
 
@@ -590,6 +591,279 @@ example : stftPlan [("size", .int 4), ("olawnd", .obj "w")] [] = .error (.unknow
 example : stftPlan [("size", .int 4), ("ola", .none), ("ola_wnd", .none)] [] = .error (.olaOptionWithoutOla "ola_wnd") := by decide
 example : stftPlan [("size", .int 4)] [("hop", .int 5)] = .error .hopGtSize := by decide
 example : stftDefaults [[("size", .int 4), ("hop", .int 2)], [("hop", .int 1)]] = [("size", .int 4), ("hop", .int 1)] := by decide
+
+/-! ## window objects: the resolution rule is part of the model -/
+
+section wnd_objects
+variable {K : Type}
+
+/-- **C09.7a** the resolution rule, callable side: an object that is callable and not a `Stream`
+is CALLED with the size, whatever else it is — in particular whether or not it is iterable too
+(the `window` StrategyDict itself, an instance of a class with `__call__` and `__iter__`, a list
+subclass with `__call__`) and whatever iterating over it would give.  Both resolutions
+(`overlap_add`, `blk_gen` of the stft wrapper) then go on with `wnd(size)`. -/
+theorem wnd_resolution_callable (size : Nat) (o : WObj K) (f : Nat → CallRes K)
+    (hc : o.call = some f) (hs : o.isStream = false) :
+    callStep size o = f size ∧
+    (∀ it, resolveOlaObj size (.obj { o with iter := it }) = resolveOlaObj size (.obj o)) ∧
+    (∀ it, resolveStftObj size (.obj { o with iter := it }) = resolveStftObj size (.obj o)) := by
+  refine ⟨?_, ?_, ?_⟩
+  · simp [callStep, hc, hs]
+  · intro it; simp [resolveOlaObj, callStep, hc, hs]
+  · intro it; simp [resolveStftObj, callStep, hc, hs]
+
+/-- **C09.7b** the resolution rule, data side: an object that is not callable, or is a `Stream`
+(Streams are callable: `Stream.__call__` maps a call over the items), is window DATA: it is never
+called, whatever calling it would return. -/
+theorem wnd_resolution_data (size : Nat) (o : WObj K) (h : o.call = none ∨ o.isStream = true) :
+    callStep size o = o.asRes ∧
+    (∀ c, o.isStream = true →
+      resolveOlaObj size (.obj { o with call := c }) = resolveOlaObj size (.obj o) ∧
+      resolveStftObj size (.obj { o with call := c }) = resolveStftObj size (.obj o)) := by
+  have h1 : ∀ o : WObj K, o.isStream = true → callStep size o = o.asRes := by
+    intro o hs
+    unfold callStep
+    cases o.call <;> simp [hs]
+  refine ⟨?_, ?_⟩
+  · rcases h with h | h
+    · simp [callStep, h]
+    · exact h1 o h
+  · intro c hs
+    have e1 := h1 o hs
+    have e2 := h1 { o with call := c } hs
+    have e3 : ({ o with call := c } : WObj K).asRes = o.asRes := rfl
+    constructor
+    · simp only [resolveOlaObj, e1, e2, e3]
+    · simp only [resolveStftObj, e1, e2, e3]
+
+/-- **C09.7c** what the overlap-add makes of the object after the call step: numbers are the
+window, `None` / a non-iterable is the TypeError "Window should be an iterable or a callable";
+`wnd=None` itself is "no window". -/
+theorem wnd_resolution_ola (size : Nat) (o : WObj K) :
+    resolveOlaObj size (.none : PyWnd K) = .ok none ∧
+    (∀ l, callStep size o = .iterable (.nums l) → resolveOlaObj size (.obj o) = .ok (some l)) ∧
+    (callStep size o = .pyNone → resolveOlaObj size (.obj o) = .error .windowType) ∧
+    (callStep size o = .other → resolveOlaObj size (.obj o) = .error .windowType) := by
+  refine ⟨rfl, ?_, ?_, ?_⟩
+  · intro l h; simp [resolveOlaObj, h, listStep]
+  · intro h; simp [resolveOlaObj, h]
+  · intro h; simp [resolveOlaObj, h]
+
+/-- **C09.7d** the stft wrapper's analysis window: the same call step, then the length check at
+once (ValueError "Incompatible window size"), and — the one difference to the overlap-add — a
+window function that returns `None` means "no window" instead of a TypeError. -/
+theorem wnd_resolution_stft (size : Nat) (o : WObj K) :
+    resolveStftObj size (.none : PyWnd K) = .ok none ∧
+    (∀ l, callStep size o = .iterable (.nums l) →
+      resolveStftObj size (.obj o) = if l.length = size then .ok (some l) else .error .windowSize) ∧
+    (callStep size o = .pyNone →
+      resolveStftObj size (.obj o) = .ok none ∧ resolveOlaObj size (.obj o) = .error .windowType) ∧
+    (callStep size o = .other → resolveStftObj size (.obj o) = .error .windowType) := by
+  refine ⟨rfl, ?_, ?_, ?_⟩
+  · intro l h
+    by_cases hl : l.length = size <;> simp [resolveStftObj, h, listStep, hl]
+  · intro h; simp [resolveStftObj, resolveOlaObj, h]
+  · intro h; simp [resolveStftObj, h]
+
+/-- **C09.7e** the table of Python object kinds the tie draws (each row is checked against
+`callable` / `isinstance(·, Iterable)` / `isinstance(·, Stream)` of a REAL object on every run):
+exactly the kinds listed are called with the size — the three that are iterable as well
+(`strategy_dict`, `user_both`, `callable_list`) included, the three `Stream` kinds excluded —,
+every other kind except `scalar` is data. -/
+theorem wnd_kind_resolution (k : WKind) (call : Nat → CallRes K) (iter : IterRes K) (size : Nat) :
+    k ∈ WKind.all ∧
+    callStep size (k.mk call iter) =
+      (if k ∈ [WKind.function, .lambda, .partialFn, .boundMethod, .klass, .strategy, .userCallOnly,
+               .strategyDict, .userBoth, .callableList] then call size
+       else if k = .scalar then .other else .iterable iter) := by
+  cases k <;> exact ⟨by decide, rfl⟩
+
+end wnd_objects
+
+section wnd_objects_full
+variable {K : Type} [Field K] [LT K] [DecidableLT K] [DecidableEq K]
+
+/-- **C09.1 for window objects**: `overlap_add.list` with ANY window object that resolves
+(by C09.7a–c) to `None` or to `size` numbers is the windowed hop-shifted sum with that resolved
+window; an object that does not resolve raises its error at the first `next`, no sample. -/
+theorem ola_obj_eq_spec (size hop : Nat) (hs : 0 < size) (h0 : 0 < hop) (hh : hop ≤ size)
+    (Bs : List (List K)) (hB : ∀ B ∈ Bs, B.length = size)
+    (size? hop? : Option Nat) (hsz : detectSize size? Bs = some size) (hhop : hop?.getD size = hop)
+    (p : PyWnd K) (normalize : Bool) :
+    (∀ w?, resolveOlaObj size p = .ok w? → (∀ w, w? = some w → w.length = size) →
+      (overlapAddListObj Bs size? hop? p normalize).out =
+          olaSpec (gainSpec size hop normalize w?) (wndSpec size w?) size hop Bs ∧
+      (overlapAddListObj Bs size? hop? p normalize).err = none) ∧
+    (∀ e, resolveOlaObj size p = .error e →
+      overlapAddListObj Bs size? hop? p normalize = ⟨[], some e⟩) := by
+  constructor
+  · intro w? hres hw
+    rw [overlapAddListObj_eq Bs size? hop? p normalize size hsz w? hres]
+    exact ola_eq_spec size hop hs h0 hh Bs hB size? hop? hsz hhop (ofResolved w?) w?
+      (resolveWnd_ofResolved size w?) hw normalize
+  · intro e he
+    exact overlapAddListObj_err Bs size? hop? p normalize size hsz e he
+
+/-- **C09.1, callable iterable windows** (the corollary a changed resolution rule breaks): an
+object that is callable, not a `Stream`, and whose call returns `size` numbers `w` gives the sum
+with `w = wnd(size)` — also when the object is iterable and iterating gives something else. -/
+theorem ola_callable_eq_spec (size hop : Nat) (hs : 0 < size) (h0 : 0 < hop) (hh : hop ≤ size)
+    (Bs : List (List K)) (hB : ∀ B ∈ Bs, B.length = size)
+    (size? hop? : Option Nat) (hsz : detectSize size? Bs = some size) (hhop : hop?.getD size = hop)
+    (f : Nat → CallRes K) (it : Option (IterRes K)) (w : List K)
+    (hf : f size = .iterable (.nums w)) (hw : w.length = size) (normalize : Bool) :
+    (overlapAddListObj Bs size? hop? (.obj ⟨false, some f, it⟩) normalize).out =
+        olaSpec (gainSpec size hop normalize (some w)) w size hop Bs ∧
+    (overlapAddListObj Bs size? hop? (.obj ⟨false, some f, it⟩) normalize).err = none := by
+  have hres : resolveOlaObj size (.obj ⟨false, some f, it⟩ : PyWnd K) = .ok (some w) := by
+    simp [resolveOlaObj, callStep, hf, listStep]
+  exact (ola_obj_eq_spec size hop hs h0 hh Bs hB size? hop? hsz hhop _ normalize).1 (some w) hres
+    (fun w' e => by cases e; exact hw)
+
+/-- **C09.4b for window objects**: the wrapper with an analysis window object `wa` and a synthesis
+window object `c.wnd` (`ola_wnd`), both resolved by the rule above (`wa` with the wrapper's
+resolution, `c.wnd` with the overlap-add's), is the windowed hop-shifted sum of the processed
+windowed blocks. -/
+theorem stft_obj_eq_spec (size hop : Nat) (hs : 0 < size) (h0 : 0 < hop) (hh : hop ≤ size)
+    (hop? : Option Nat) (hhop : hop?.getD size = hop)
+    (wa : PyWnd K) (wa? : Option (List K)) (hwa : resolveStftObj size wa = .ok wa?)
+    (st : Stages K) (hlen : ∀ b : List K, b.length = size → (chainOf st size b).length = size)
+    (c : OlaCallObj K) (hcs : c.size? = some size) (hch : c.hop?.getD size = hop)
+    (ws? : Option (List K)) (hws : resolveOlaObj size c.wnd = .ok ws?)
+    (hwl : ∀ w, ws? = some w → w.length = size) (x : List K) :
+    (stftRunObj false size hop? wa st (some c) x).out =
+      olaSpec (gainSpec size hop c.normalize ws?) (wndSpec size ws?) size hop
+        ((blocks size hop 0 x).map fun B => chainOf st size (windowed wa? B)) ∧
+    (stftRunObj false size hop? wa st (some c) x).err = none := by
+  rw [stftRunObj_eq false size hop? wa st c x size hcs wa? hwa ws? hws]
+  have hwal : ∀ w, wa? = some w → w.length = size := fun w e =>
+    resolveStftObj_length size wa w (e ▸ hwa)
+  have h := stft_eq_spec size hop hs h0 hh hop? hhop (ofResolved wa?) wa?
+    (resolveWndStft_ofResolved size wa? hwal) st hlen
+    ⟨c.size?, c.hop?, ofResolved ws?, c.normalize⟩ hcs hch ws? (resolveWnd_ofResolved size ws?) hwl x
+  exact ⟨h.1, h.2.1⟩
+
+/-- **C09.4 for window objects**: identity processing reconstructs the input (same statement as
+`stft_identity`, the windows given as objects). -/
+theorem stft_obj_identity (size hop : Nat) (hs : 0 < size) (h0 : 0 < hop) (hd : hop ∣ size)
+    (hop? : Option Nat) (hhop : hop?.getD size = hop)
+    (wa : PyWnd K) (wa? : Option (List K)) (hwa : resolveStftObj size wa = .ok wa?)
+    (st : Stages K) (hid : ∀ b, process (st.funcs size) b = b)
+    (c : OlaCallObj K) (hcs : c.size? = some size) (hch : c.hop?.getD size = hop)
+    (ws? : Option (List K)) (hws : resolveOlaObj size c.wnd = .ok ws?)
+    (hwl : ∀ w, ws? = some w → w.length = size)
+    (cola : ∀ j, j < hop → sumTo (size / hop) (fun i => gainSpec size hop c.normalize ws? *
+        ((wndSpec size ws?).getD (j + i * hop) 0 * (wndSpec size wa?).getD (j + i * hop) 0)) = 1)
+    (x : List K) (n : Nat) (hn1 : size - hop ≤ n) (hn2 : n < (blocks size hop 0 x).length * hop) :
+    (stftRunObj false size hop? wa st (some c) x).out.getD n 0 = x.getD n 0 ∧
+    (stftRunObj false size hop? wa st (some c) x).err = none := by
+  rw [stftRunObj_eq false size hop? wa st c x size hcs wa? hwa ws? hws]
+  have hwal : ∀ w, wa? = some w → w.length = size := fun w e =>
+    resolveStftObj_length size wa w (e ▸ hwa)
+  exact stft_identity size hop hs h0 hd hop? hhop (ofResolved wa?) wa?
+    (resolveWndStft_ofResolved size wa? hwal) st hid
+    ⟨c.size?, c.hop?, ofResolved ws?, c.normalize⟩ hcs hch ws? (resolveWnd_ofResolved size ws?) hwl
+    cola x n hn1 hn2
+
+end wnd_objects_full
+
+/-! ## option routing: `ola_params` bound to `overlap_add(blk_sig, size=None, hop=None, wnd=None,
+    normalize=True)` -/
+
+section routing
+
+/-- **C09.5c** what reaches the four parameters of the overlap-add strategy and with which
+defaults: `size` / `hop` are the option `ola_size` / `ola_hop` when given, else the wrapper's own
+`size` / `hop` (`None` when `hop` was omitted: the strategy then takes `hop = size`); `wnd` is
+`ola_wnd` when given, else `None` (NOT the analysis window `wnd`); `normalize` is `ola_normalize`
+when given, else `True`. -/
+theorem stft_ola_bound (kwparams kwargs : Dict) (plan : Plan)
+    (h : stftPlan kwparams kwargs = .ok plan) (b : OlaBound) (hb : bindOla plan.olaParams = .ok b) :
+    ∃ size, dictGet (dictUpdate kwparams kwargs) "size" = some size ∧
+      let merged := dictUpdate kwparams kwargs
+      let hop := (dictGet merged "hop").getD .none
+      b.size = (olaKwSpec size hop merged "size").getD .none ∧
+      b.hop = (olaKwSpec size hop merged "hop").getD .none ∧
+      b.wnd = (olaKwSpec size hop merged "wnd").getD .none ∧
+      b.normalize = (olaKwSpec size hop merged "normalize").getD (.int 1) := by
+  obtain ⟨size, hsz, hk⟩ := stft_ola_kwargs kwparams kwargs plan h
+  obtain ⟨_, h1, h2, h3, h4⟩ := bindOla_ok _ _ hb
+  exact ⟨size, hsz, by rw [h1, hk], by rw [h2, hk], by rw [h3, hk], by rw [h4, hk]⟩
+
+/-- **C09.5d** the defaults, spelled out: with no `ola_size` (`ola_hop`, `ola_wnd`,
+`ola_normalize`) among the merged keywords the strategy gets the analysis size (the analysis hop
+or `None`, no window, normalisation ON). -/
+theorem stft_ola_defaults (kwparams kwargs : Dict) (plan : Plan)
+    (h : stftPlan kwparams kwargs = .ok plan) (b : OlaBound) (hb : bindOla plan.olaParams = .ok b) :
+    let merged := dictUpdate kwparams kwargs
+    ((∀ kv ∈ merged, kv.1 ≠ "ola_size") → some b.size = dictGet merged "size") ∧
+    ((∀ kv ∈ merged, kv.1 ≠ "ola_hop") → b.hop = (dictGet merged "hop").getD .none) ∧
+    ((∀ kv ∈ merged, kv.1 ≠ "ola_wnd") → b.wnd = .none) ∧
+    ((∀ kv ∈ merged, kv.1 ≠ "ola_normalize") → pvTruthy b.normalize = true) := by
+  obtain ⟨size, hsz, h1, h2, h3, h4⟩ := stft_ola_bound kwparams kwargs plan h b hb
+  refine ⟨?_, ?_, ?_, ?_⟩
+  · intro hn
+    rw [h1, olaKwSpec_absent _ _ _ "size" hn, hsz]; rfl
+  · intro hn
+    rw [h2, olaKwSpec_absent _ _ _ "hop" hn]; rfl
+  · intro hn
+    rw [h3, olaKwSpec_absent _ _ _ "wnd" hn]; rfl
+  · intro hn
+    rw [h4, olaKwSpec_absent _ _ _ "normalize" hn]; rfl
+
+/-- **C09.5e** the overrides: an option given (once — the merged keywords are a dict) as
+`ola_size` / `ola_hop` / `ola_wnd` / `ola_normalize` is what the strategy gets. -/
+theorem stft_ola_overrides (kwparams kwargs : Dict) (plan : Plan)
+    (h : stftPlan kwparams kwargs = .ok plan) (b : OlaBound) (hb : bindOla plan.olaParams = .ok b)
+    (k : String) (v : PV)
+    (hv : (dictUpdate kwparams kwargs).filter (fun kv => decide (kv.1 = "ola_" ++ k)) = [("ola_" ++ k, v)]) :
+    (k = "size" → b.size = v) ∧ (k = "hop" → b.hop = v) ∧ (k = "wnd" → b.wnd = v) ∧
+    (k = "normalize" → b.normalize = v) := by
+  obtain ⟨size, _, h1, h2, h3, h4⟩ := stft_ola_bound kwparams kwargs plan h b hb
+  refine ⟨?_, ?_, ?_, ?_⟩ <;> intro hk <;> subst hk
+  · rw [h1, olaKwSpec_present _ _ _ _ v hv]; rfl
+  · rw [h2, olaKwSpec_present _ _ _ _ v hv]; rfl
+  · rw [h3, olaKwSpec_present _ _ _ _ v hv]; rfl
+  · rw [h4, olaKwSpec_present _ _ _ _ v hv]; rfl
+
+/-- **C09.5f** the call of the strategy fails ("unexpected keyword argument") only for an option
+`ola_<k>` that was really given and whose `<k>` is not a parameter of the strategy; `size` / `hop`
+never cause it. -/
+theorem stft_ola_bind_error (kwparams kwargs : Dict) (plan : Plan)
+    (h : stftPlan kwparams kwargs = .ok plan) (k : String) (hb : bindOla plan.olaParams = .error k) :
+    k ∉ olaSigNames ∧ ∃ v, ("ola_" ++ k, v) ∈ dictUpdate kwparams kwargs := by
+  obtain ⟨hk, v, hmem⟩ := bindOla_error _ _ hb
+  refine ⟨hk, ?_⟩
+  obtain ⟨size, _, hspec⟩ := stft_ola_kwargs kwparams kwargs plan h
+  obtain ⟨v', hv'⟩ := dictGet_of_mem _ _ _ hmem
+  rw [hspec] at hv'
+  have hk1 : k ≠ "size" := fun e => hk (by rw [e]; decide)
+  have hk2 : k ≠ "hop" := fun e => hk (by rw [e]; decide)
+  exact ⟨v', olaKwSpec_some_mem _ _ _ _ hk1 hk2 v' hv'⟩
+
+end routing
+
+/-- non-vacuity of the window-object theorems: the `window`-StrategyDict shape (callable, iterable
+with non-numbers, not a Stream) is called; a Stream is data; a callable returning `None` -/
+example : resolveOlaObj 3 (.obj (WKind.strategyDict.mk (fun n => .iterable (.nums (List.replicate n (2 : Int))))
+    (.opaque 7))) = .ok (some [2, 2, 2]) := by decide
+example : resolveOlaObj 3 (.obj (WKind.userBoth.mk (fun n => .iterable (.nums (List.replicate n (2 : Int))))
+    (.nums [1, 1, 3]))) = .ok (some [2, 2, 2]) := by decide
+example : resolveOlaObj 3 (.obj (WKind.stream.mk (fun _ => .other) (.nums [1, 1, (3 : Int)]))) = .ok (some [1, 1, 3]) := by decide
+example : resolveStftObj 3 (.obj (WKind.lambda.mk (fun _ => .pyNone) (.nums ([] : List Int)))) = .ok none := by decide
+example : resolveOlaObj 3 (.obj (WKind.lambda.mk (fun _ => .pyNone) (.nums ([] : List Int)))) = .error .windowType := by decide
+example : resolveStftObj 3 (.obj (WKind.pyTuple.mk (fun _ => .other) (.nums [1, (2 : Int)]))) = .error .windowSize := by decide
+example : (overlapAddListObj [[1, 10, 100], [1000, 10000, 100000]] none (some 2)
+    (.obj (WKind.userBoth.mk (fun n => .iterable (.nums ((List.range n).map fun i => ((i : Int) + 1)))) (.nums [9, 9, 9]))) false : Out Int).out
+    = [1, 20, 1300, 20000, 300000] := by decide
+/-- non-vacuity of the routing theorems: defaults and overrides -/
+example : ((stftPlan [("size", .int 4), ("ola", .obj "list")] [("hop", .int 2)]).toOption.map (bindOla ·.olaParams))
+    = some (.ok ⟨.int 4, .int 2, .none, .int 1⟩) := by decide
+example : ((stftPlan [("size", .int 4), ("ola_hop", .int 1), ("ola_size", .int 8), ("ola_normalize", .int 0)]
+      [("ola_wnd", .obj "w")]).toOption.map (bindOla ·.olaParams))
+    = some (.ok ⟨.int 8, .int 1, .obj "w", .int 0⟩) := by decide
+example : ((stftPlan [("size", .int 4), ("ola_latency", .int 1)] []).toOption.map (bindOla ·.olaParams))
+    = some (.error "latency") := by decide
 
 end ALV.Props.C09
 
